@@ -594,7 +594,7 @@ def main(tier, replay_path=None):
     # directory beside the sources, directly inside the source directory and two levels below it
     st = Stats()
     for pname in PROJECTS:
-        for outdir in ("doc", "src/doc", "src/build/doc", "src/doc@glob"):
+        for outdir in ("doc", "src/doc", "src/build/doc", "src/doc@glob", "src/doc[1]"):
             # @glob: the project lives in a directory whose name holds characters that mean something in a glob pattern
             rootname = None
             if outdir.endswith("@glob"):
